@@ -606,9 +606,67 @@ func paginationParsers(p *core.Program) []*ssa.Function {
 
 // ---- R07.5 internal consumers loop to the empty token -----------------------------------------------
 
+// listingWrappers: functions that fetch one page for their caller - they call GetRelationTuples
+// once, with x.WithToken(<their string parameter>), and return what it returns (rows, next token,
+// error). The value is the index of the token parameter.
+func listingWrappers(p *core.Program) map[*ssa.Function]int {
+	out := map[*ssa.Function]int{}
+	for _, pk := range p.KetoPackages() {
+		for _, fn := range p.KetoFuncs(core.RelPath(pk.PkgPath)) {
+			if fn.Parent() != nil || fn.Blocks == nil || (fn.Object() != nil && fn.Object().Exported()) {
+				continue
+			}
+			var listing *ssa.Call
+			nList := 0
+			core.Instrs(fn, func(_ *ssa.BasicBlock, _ int, ins ssa.Instruction) {
+				if call, ok := ins.(*ssa.Call); ok && call.Common().IsInvoke() && call.Common().Method.Name() == "GetRelationTuples" {
+					listing = call
+					nList++
+				}
+			})
+			if nList != 1 || fn.Signature.Results().Len() != listing.Common().Signature().Results().Len() {
+				continue
+			}
+			// returns the call's results as they are
+			direct := true
+			core.Instrs(fn, func(_ *ssa.BasicBlock, _ int, ins ssa.Instruction) {
+				ret, ok := ins.(*ssa.Return)
+				if !ok {
+					return
+				}
+				for i, rv := range ret.Results {
+					ex, ok := rv.(*ssa.Extract)
+					if !ok || ex.Tuple != ssa.Value(listing) || ex.Index != i {
+						direct = false
+					}
+				}
+			})
+			if !direct {
+				continue
+			}
+			// the token option is built from a string parameter
+			for _, a := range listing.Common().Args {
+				for _, el := range variadicElems(a) {
+					if oc, ok := core.ValueOrigin(el).(*ssa.Call); ok && core.IsCallTo(oc, "WithToken") {
+						if par, ok := core.ValueOrigin(oc.Common().Args[0]).(*ssa.Parameter); ok {
+							for k, q := range fn.Params {
+								if q == par {
+									out[fn] = k
+								}
+							}
+						}
+					}
+				}
+			}
+		}
+	}
+	return out
+}
+
 func r075(c *Ctx, rule string) {
 	p, r := c.P, c.R
 	n := 0
+	wrappers := listingWrappers(p)
 	live, _ := p.KG().Live()
 	var rels []string
 	for _, pk := range p.KetoPackages() {
@@ -625,8 +683,15 @@ func r075(c *Ctx, rule string) {
 				if !ok {
 					return
 				}
-				if obj := core.CalleeObj(call.Common()); obj == nil || obj.Name() != "GetRelationTuples" || obj.Pkg() == nil || !strings.HasPrefix(obj.Pkg().Path(), core.KetoMod) {
+				wrapIdx, isWrapper := -1, false
+				if sc := call.Common().StaticCallee(); sc != nil {
+					wrapIdx, isWrapper = wrappers[sc]
+				}
+				if obj := core.CalleeObj(call.Common()); !isWrapper && (obj == nil || obj.Name() != "GetRelationTuples" || obj.Pkg() == nil || !strings.HasPrefix(obj.Pkg().Path(), core.KetoMod)) {
 					return
+				}
+				if _, inWrapper := wrappers[core.Outermost(fn)]; inWrapper {
+					return // judged at the calls of the wrapper
 				}
 				hasTok := false
 				if res := call.Common().Signature().Results(); res != nil {
@@ -671,6 +736,9 @@ func r075(c *Ctx, rule string) {
 							tokenArg = oc.Common().Args[0]
 						}
 					}
+				}
+				if isWrapper && wrapIdx < len(call.Common().Args) {
+					tokenArg = call.Common().Args[wrapIdx] // the wrapper turns it into x.WithToken(...)
 				}
 				if tokenArg == nil {
 					r.Violate(rule, name, "paginated listing", p.Pos(call.Pos()), "no x.WithToken option is passed: every iteration fetches the first page")
